@@ -83,6 +83,10 @@ class PMap:
     def __repr__(self): return f'PMap{self.items}'
 
 
+class PSet(PMap):
+    """BTreeSet / HashSet model: a PMap whose values are its keys; iteration yields the elements"""
+
+
 class SymStr:
     """opaque symbolic string: a z3 constant of the uninterpreted sort Str (equality only)"""
     __slots__ = ('term',)
@@ -565,7 +569,7 @@ class Executor:
             if isinstance(c, tuple): raise Unsupported('operand is a downcast: ' + s)
             return c.v
         if s.startswith('const '): return self.const(s[6:], f)
-        if re.match(r'^[<\w]', s) and '::' in s: return FnItem(s)
+        if re.match(r'^[<\w]', s) and ('::' in s or re.match(r'^[A-Za-z_]\w*$', s)): return FnItem(s)
         raise Unsupported('operand ' + s)
 
     BINOPS = ('Eq', 'Ne', 'Lt', 'Le', 'Gt', 'Ge', 'Add', 'Sub', 'Mul', 'Div', 'Rem', 'AddWithOverflow', 'SubWithOverflow',
@@ -597,6 +601,8 @@ class Executor:
                 return self.int_cast(v, self.operand_ty(f, m.group(1)), m.group(2))
             if kind in ('Transmute', 'PtrToPtr', 'PointerCoercion', 'Subtype', 'MutToConstPointer'):
                 return v
+            if kind == 'FloatToInt' and getattr(self, 'float_to_int', None):
+                return self.float_to_int(self, v, m.group(2))
             raise Unsupported('cast ' + s)
         if re.match(r'^(no_retag )?(copy|move|const) ', s):
             return self.operand(frame, s, f)
@@ -692,6 +698,12 @@ class Executor:
         if last in self.L.structs or kind == 'named' or kind == 'tuple':
             if last not in self.L.structs and last in self.variant_owner and len(self.variant_owner[last]) == 1:
                 return self.mk_enum(self.variant_owner[last][0], last, args)
+            if last not in self.L.structs and kind == 'named' and len(self.variant_owner.get(last, [])) > 1:
+                # struct-like variants are printed without their enum: pick the enum whose variant has these field names
+                names = [a.split(': ', 1)[0].strip() for a in split_top(body)]
+                owners = [en for en in self.variant_owner[last] if self.L.variant_fields.get((en, last)) == names]
+                if len(owners) == 1: return self.mk_enum(owners[0], last, args)
+                raise Unsupported(f'ambiguous struct-like variant {last} {names}')
             return Adt(last, 0, {None: [Cell(a) for a in args]})
         if last in self.variant_owner and len(self.variant_owner[last]) == 1:
             return self.mk_enum(self.variant_owner[last][0], last, args)
@@ -706,6 +718,9 @@ class Executor:
             if dst.startswith('i') and v >= 1 << (db - 1): v -= 1 << db
             return v
         if z3.is_bool(v): return z3.If(v, z3.BitVecVal(1, db), z3.BitVecVal(0, db))
+        if z3.is_int(v):       # unbounded integer term (value-level models): `as` wraps into the target range
+            lo = -(1 << (db - 1)) if dst.startswith('i') else 0
+            return (v - lo) % (1 << db) + lo
         if z3.is_bv(v):
             sb = v.size()
             if sb == db: return v
